@@ -153,6 +153,11 @@ def parseOp (line : String) : Option Op :=
       | "fn1" => some (1, [.recv (.g 0) false none, .fetch (.snoc (.snoc .unit .eid) (.ref 0))], [.iter 1])
       | "fn2" => some (2, [.recv (.t 0) false (some .eid)], [])
       | "fn3" => some (3, [.recv (.g 1) true none, .snd [.g 0, .spawn]], [.send 0, .take])
+      -- a `#[derive(HandlerParam)]` struct with two fetchers / a tuple of parameters with a `#[derive(Query)]` struct
+      | "fn4" => some (4, [.recv (.g 0) false none, .fetch (.snoc (.snoc .unit .eid) (.ref 0)),
+                           .fetch (.snoc (.snoc .unit .eid) (.ref 1))], [.iter 1, .iter 2])
+      | "fn5" => some (5, [.recv (.g 0) false none, .fetch (.snoc (.snoc .unit .eid) (.ref 0)),
+                           .fetch (.snoc (.snoc .unit .eid) (.ref 1))], [.iter 1, .iter 2])
       | _ => none
     let pt : Option (Priority × Bool) := match wrap with
       | "plain" => some (.medium, true) | "high" => some (.high, true) | "low" => some (.low, true)
